@@ -137,7 +137,6 @@ fn apply_ref<B: BRemapper>(q: &Rec<B>, owner: &JavaStr, r: &Ref) -> Option<Ref> 
 /// what remap.rs does at a position of that kind (mirror of `codeApply`)
 fn code_apply<B: BRemapper>(q: &Rec<B>, owner: &JavaStr, r: &Ref) -> Option<Ref> {
 	match r {
-		Ref::Dyn(d) => Some(Ref::Dyn(d.clone())),
 		Ref::EnumConst(t, c) => Some(Ref::EnumConst(q.map_desc(t)?, c.clone())),
 		x => apply_ref(q, owner, x),
 	}
@@ -717,26 +716,28 @@ fn emit_jar_ops(r: &mut Rng, out: &mut Out, es: &[Ent]) {
 	out.op("oracle-reopen", &[jar, maps, aux, t, Sexp::bool(w)]);
 }
 
-/// request lines replaying the findings (full-strength oracles, no domain); printed with `C07_WITNESS=1 c07 gen`
-fn witnesses(out: &mut Out) {
+/// request lines replaying the findings (full-strength oracles, no domain): `C07_WITNESS=open c07 gen` prints the open
+/// ones (corpus/c07/witnesses.txt), `C07_WITNESS=regress` the fixed ones (corpus/regress/C07.txt, expected to pass)
+fn witnesses(out: &mut Out, regress: bool) {
 	let fx = |n: &str| (fixture(n), Sexp::list(vec![Sexp::tag("fixture"), Sexp::tag(n)]));
 	let co = |f: &str| (corpus_class(f).ok(), corpus_hint(f));
 	let cls = |a: &str, b: &str| (a.to_owned(), Some(b.to_owned()), vec![], vec![]);
-	let cases: Vec<(&str, (Option<ClassFile>, Sexp), GMap)> = vec![
+	let cases: Vec<(&str, (Option<ClassFile>, Sexp), GMap)> = if regress { vec![
 		("oracle-full-refs", fx("indy"), GMap { classes: vec![cls("a/A", "r/A"), cls("a/B", "r/B")], supers: vec![] }),
 		("oracle-full-refs", fx("condy"), GMap { classes: vec![cls("a/A", "r/A")], supers: vec![] }),
+		("oracle-full-refs", co("Lambdas.class"), GMap { classes: vec![cls("Lambdas$Shape", "q/Sh")], supers: vec![] }),
+	] } else { vec![
 		("oracle-full-refs", fx("enum"), GMap { classes: vec![("a/En".into(), Some("r/En".into()), vec![("RED".into(), "La/En;".into(), "GREEN".into())], vec![])], supers: vec![] }),
 		("oracle-full-refs", fx("record"), GMap { classes: vec![cls("a/A", "r/A")], supers: vec![] }),
 		("oracle-full-shape", fx("record"), GMap::default()),
 		("oracle-full-shape", fx("attrs"), GMap::default()),
 		("oracle-full-names", fx("signature"), GMap { classes: vec![cls("a/A", "r/A")], supers: vec![] }),
-		("oracle-full-refs", co("Lambdas.class"), GMap { classes: vec![cls("Lambdas$Shape", "q/Sh")], supers: vec![] }),
 		("oracle-full-names", co("Generics.class"), GMap { classes: vec![cls("Generics", "q/G")], supers: vec![] }),
 		("oracle-full-names", co("Annotated.class"), GMap { classes: vec![("Ann".into(), Some("Ann".into()), vec![], vec![("name".into(), "()Ljava/lang/String;".into(), "label".into())])], supers: vec![] }),
 		("oracle-full-names", co("Nested$Inner.class"), GMap { classes: vec![cls("Nested$Inner", "Nested$Renamed")], supers: vec![] }),
 		("oracle-full-shape", co("module-info.class"), GMap::default()),
 		("oracle-full-shape", co("Point.class"), GMap::default()),
-	];
+	] };
 	for (op, (class, hint), g) in cases {
 		let Some(class) = class else { continue };
 		let m = project(&class);
@@ -749,7 +750,7 @@ fn witnesses(out: &mut Out) {
 }
 
 fn gen(r: &mut Rng, tier: Tier, out: &mut Out) {
-	if std::env::var("C07_WITNESS").is_ok() { return witnesses(out); }
+	if let Ok(w) = std::env::var("C07_WITNESS") { return witnesses(out, w == "regress"); }
 	let th = tier == Tier::Thorough;
 	let files = corpus_files(tier);
 	// fixtures and corpus classes first: every one under several remappers
